@@ -902,7 +902,7 @@ def oracle(case):
             viol.append(f"{name}: overflow attribute {meta.init_overflow_attr!r} vs advertised ** parameter: {has_over}")
     if sorted(nested_kw) != sorted(expected) or len(set(nested_kw)) != len(nested_kw):
         viol.append(f"{name}: nested keywords {nested_kw} but the init-enabled attributes of the nested class are {expected}")
-    if case["mkind"] in ("init", "update", "withAttr", "withSeq", "withMap", "withSet") and not viol:
+    if case["mkind"] in ("init", "update", "withAttr", "updateAttr", "withSeq", "withMap", "withSet") and not viol:
         viol += behaviour_violations(case)[:6]
     recv = receiver_for(cls, case["cls"], name)
     for c in case["calls"]:
@@ -1035,15 +1035,19 @@ def behaviour_violations(case):
     name = resolve_method_name(cls, case["method"])
 
     def attempt(label, fn, check):
-        BEHAVIOUR["checks"] += 1
-        try:
-            r = fn()
-        except Exception as e:  # noqa: BLE001
-            viol.append(f"{label}: raised {type(e).__name__}: {e}")
-            return
-        msg = check(r)
-        if msg:
-            viol.append(f"{label}: {msg}")
+        # every behaviour-level call is made three times in the same process (fresh receiver each time):
+        # the value given must arrive on the first, the second and the third call alike
+        for rep in (1, 2, 3):
+            BEHAVIOUR["checks"] += 1
+            try:
+                r = fn()
+            except Exception as e:  # noqa: BLE001
+                viol.append(f"{label} [call #{rep}]: raised {type(e).__name__}: {e}")
+                return
+            msg = check(r)
+            if msg:
+                viol.append(f"{label} [call #{rep}]: {msg}")
+                return
 
     if mk in ("init", "update"):
         ovf = eff_overflow(desc)
@@ -1088,30 +1092,79 @@ def behaviour_violations(case):
             attempt(f"{name}(_new_value={v!r})", lambda v=v: getattr(recv(), name)(_new_value=v),
                     lambda o, v=v: None if same(getattr(o, attr, None), v) else f"{attr} is {getattr(o, attr, '<missing>')!r}")
     nd = case.get("nested")
-    if nd is not None and mk in ("withAttr", "withSeq", "withMap", "withSet"):
-        # nested-attribute keywords with falsy values reach the nested object
+    if nd is not None and mk in ("withAttr", "updateAttr", "withSeq", "withMap"):
+        ovf = nd.get("overflow")
         nreq = {x["name"]: ("kv" if x["type"] == "str" else 1) for x in nd["attrs"]
-                if x["init"] and not x["default"] and x["name"] != nd.get("overflow")}
-        for x in nd["attrs"]:
-            if not x["init"] or x["name"] == nd.get("overflow") or x["name"] == "self":
-                continue
+                if x["init"] and not x["default"] and x["name"] != ovf}
+        if mk in ("withAttr", "updateAttr"):
+            # (update_<attr> on a receiver whose attribute is unset builds the nested value from the keywords)
+            call_kw = lambda kw: getattr(recv(), name)(**kw)  # noqa: E731
+            call_pos = lambda pos, kw: getattr(recv(), name)(pos, **kw)  # noqa: E731
+            get = lambda o: getattr(o, attr)  # noqa: E731
+        elif mk == "withSeq":
+            call_kw = lambda kw: getattr(recv(), name)(**kw)  # noqa: E731
+            call_pos = lambda pos, kw: getattr(recv(), name)(pos, **kw)  # noqa: E731
+            get = lambda o: getattr(o, attr)[-1]  # noqa: E731
+        else:
+            call_kw = lambda kw: getattr(recv(), name)("key", **kw)  # noqa: E731
+            call_pos = lambda pos, kw: getattr(recv(), name)("key", pos, **kw)  # noqa: E731
+            get = lambda o: getattr(o, attr)["key"]  # noqa: E731
+
+        def nested_is(expect):
+            def chk(o):
+                n = get(o)
+                for k, v in expect.items():
+                    if not same(getattr(n, k, None), v):
+                        return f"nested {k} is {getattr(n, k, '<missing>')!r}, not the value given {v!r}"
+                return None
+            return chk
+
+        inits = [x for x in nd["attrs"] if x["init"] and x["name"] != ovf and x["name"] != "self"]
+        for x in inits:
             f, t = sample_values(x["type"], nd, [])
+            # nested-attribute keywords with falsy values reach the nested object
             for v in f[:1] + t[:1]:
                 kw = {**nreq, x["name"]: v}
-                if mk == "withAttr":
-                    call = lambda kw=kw: getattr(recv(), name)(**kw)  # noqa: E731
-                    get = lambda o: getattr(o, attr)  # noqa: E731
-                elif mk == "withSeq":
-                    call = lambda kw=kw: getattr(recv(), name)(**kw)  # noqa: E731
-                    get = lambda o: getattr(o, attr)[-1]  # noqa: E731
-                elif mk == "withMap":
-                    call = lambda kw=kw: getattr(recv(), name)("key", **kw)  # noqa: E731
-                    get = lambda o: getattr(o, attr)["key"]  # noqa: E731
-                else:
-                    continue  # sets of spec instances need hashable items
-                attempt(f"{name}(**{kw})", call,
-                        lambda o, x=x, v=v, get=get: None if same(getattr(get(o), x["name"], None), v)
-                        else f"nested {x['name']} is {getattr(get(o), x['name'], '<missing>')!r}, not {v!r}")
+                attempt(f"{name}(**{kw})", lambda kw=kw: call_kw(kw), nested_is({x["name"]: v}))
+            if mk == "updateAttr" or not f or not t:
+                continue
+            # the nested value given POSITIONALLY as a dict of constructor arguments, next to nested keywords:
+            # a keyword naming an attribute the dict names too must win (it is an advertised parameter and must
+            # reach the behaviour with the value given); keywords naming other attributes must arrive as well
+            for dv, kv in ((t[0], f[0]), (f[0], t[0])):
+                pos = {**nreq, x["name"]: dv}
+                attempt(f"{name}({pos}, {x['name']}={kv!r})", lambda pos=pos, kv=kv: call_pos(pos, {x["name"]: kv}),
+                        nested_is({x["name"]: kv}))
+            for y in inits:
+                if y["name"] == x["name"]:
+                    continue
+                fy, ty = sample_values(y["type"], nd, [])
+                if not fy:
+                    continue
+                pos = {**nreq, x["name"]: t[0]}
+                want = {x["name"]: t[0], y["name"]: fy[0]}
+                attempt(f"{name}({pos}, {y['name']}={fy[0]!r})", lambda pos=pos, y=y, fy=fy: call_pos(pos, {y["name"]: fy[0]}),
+                        nested_is(want))
+        if ovf:
+            # arbitrary keywords advertised through the nested class's `**overflow` reach ITS overflow dict
+            # (on every call), never end up as stray attributes of the nested object
+            extra_kw = {"zz": 0, "yy": ""}
+
+            def overflow_ok(o):
+                n = get(o)
+                got = getattr(n, ovf, "<missing>")
+                if got != extra_kw:
+                    return f"nested overflow attribute {ovf} is {got!r}, not {extra_kw!r}"
+                stray = [k for k in extra_kw if k in getattr(n, "__dict__", {})]
+                return f"stray attributes {stray} on the nested object" if stray else None
+
+            attempt(f"{name}(**{ {**nreq, **extra_kw} })", lambda: call_kw({**nreq, **extra_kw}), overflow_ok)
+            if mk != "updateAttr":
+                # (dict-positional form: the keywords must still reach the overflow dict; HEAD additionally
+                # re-applies them with setattr — an observation reported in docs/C17.md, not demanded away here)
+                attempt(f"{name}({nreq}, **{extra_kw})", lambda: call_pos(dict(nreq), dict(extra_kw)),
+                        lambda o: None if getattr(get(o), ovf, None) == extra_kw
+                        else f"nested overflow attribute {ovf} is {getattr(get(o), ovf, '<missing>')!r}")
     if len(parts) >= 2 and parts[1] == "int":
         for v in (0, 5):
             if mk == "withSeq":
